@@ -57,7 +57,7 @@ claimed["C08"] = (
     "disconnect point d, the client's offset = ANY addressed packet before the disconnect (it may lag), symbolic time between the last packet and the moment the disconnect is noticed, clean-up passes after the disconnect (0..1) and before the restore (0..2) executed by running the real cleaner goroutine body (its time.Sleep is gated), and the time elapsed between "
     "all steps as SYMBOLIC durations (0..4 units each, decided by the solver, not enumerated). Asserts: recovered => exactly the addressed packets after the offset, in order, none twice (no gap); session older "
     "than the window => not recovered; session and log entries younger than the window => recoverable whatever the passes; unknown pid / unknown offset / EMPTY offset / ANY 1..2-byte offset that is not a logged id => not recovered, the adapter's mutex free and the adapter usable afterwards; only plain events are logged. "
-    "Glue: the client records the trailing offset argument iff it holds a session id and strips it before the handler; a recovered server socket re-joins exactly its persisted rooms and re-sends exactly the missed packets in order.",
+    "Repeated recovery: recovered, rooms changed by a symbolic join / leave, persisted again, two broadcasts missed, recovered again: rooms and replay follow the LATEST disconnection. Glue: the client records the trailing offset argument iff it holds a session id and strips it before the handler; a recovered server socket re-joins exactly its persisted rooms and re-sends exactly the missed packets in order.",
     "Outside the claim: instants exactly at the window boundary (durations are multiples of 100ms against a 250ms window), binary packets through the real encoder (frames are opaque), several sessions on one log, time overflow. Native replay approximates cleaner passes with a 2ms period.",
     "5 (C08)")
 
@@ -82,7 +82,7 @@ claimed["C15"] = (
     "draw r in [0,1) symbolic; attempt number concretised (quick: 0,31,62,63 - one per regime: exact, int64 wrap of min*2^k, float->int overflow at 2^63; thorough: every 0..70): 0 < delay <= max, first delay == min "
     "without jitter, attempt accounting; (all (min,max), k <= 40, no overflow) delays do not decrease without jitter. FP queries are decided by fresh z3 processes, cvc5 / z3 5.1 as fall-back. (2) Reconnect state "
     "machine (real Manager.reconnect/connect/onReconnect with the network dial cut) for every attempt limit N in 0..4 and every outage length j in 0..5: dials exactly min(j+1,N) times, reconnect_failed exactly once "
-    "after N failures (disconnected, back-off reset, no reconnect), reconnect exactly once with the successful attempt's number otherwise, attempts numbered 1,2,3.. ; a stop (Manager.Close) after 0..3 computed delays of a cycle followed by a new open with the server still down starts a full cycle of its own (N attempts, one reconnect_failed). (4) an offline emit with ack + timeout (public API) times out during the outage: its callback gets ErrAckTimeout once and every other non-volatile offline emit is still delivered once, in order. (3) Offline buffer: 1..3/4 emits while "
+    "after N failures (disconnected, back-off reset, no reconnect), reconnect exactly once with the successful attempt's number otherwise, attempts numbered 1,2,3.. ; a stop (Manager.Close) after 0..3 computed delays of a cycle followed by a new open with the server still down starts a full cycle of its own (N attempts, one reconnect_failed). (4) an offline emit with ack + timeout (public API) times out during the outage: its callback gets ErrAckTimeout once and every other non-volatile offline emit is still delivered once, in order. (5) buffered offline emits and an emit from a connect handler through the real clientSocket.onConnect: the buffered events go out first, in order. (3) Offline buffer: 1..3/4 emits while "
     "disconnected with symbolic volatile flags and 1..2 frames each, then emitBuffered twice: exactly the non-volatile emits' frames, in order, once; volatile dropped; second flush sends nothing.",
     "Outside the claim: max above 2^53 ns (float64(max) may round up past max), attempt numbers above 70, real timers / outages / black-holed dials, the retry queue (clientPacketQueue), ack-carrying offline emits "
     "(C03 covers their timeout). math.Pow is evaluated natively on concrete operands; float->int conversion follows amd64. One jitter-bound assertion (delay <= 2*min at attempt 0) stayed unknown on all three solvers at 60 s and is not claimed.",
@@ -121,7 +121,7 @@ claimed["C12"] = (
 
 claimed["C17"] = (
     "Bounded symbolic execution / model checking of the Engine.IO server's request validation through the real Server.ServeHTTP (net/url query parsing and strconv.Atoi executed from SSA, polling transport real, "
-    "HTTP request/response as recording stand-ins): (1) the full matrix method {GET,POST,PUT} x EIO {absent,3,4,5, seven junk forms} x transport {absent,polling,websocket,junk} x sid {absent,unknown,live,closed} x b64, "
+    "HTTP request/response as recording stand-ins): (1) the full matrix method {GET,POST,PUT} x EIO {absent,3,4,5, seven junk forms} x transport {absent,polling,websocket,junk,webtransport (a real transport name that a plain HTTP request cannot open)} x sid {absent,unknown,live,closed} x b64, "
     "before and after Server.Close, on a server holding one live session and one closed id: protocol error code per case (5 / 1 / 2 / 0, any error for a live sid with an unknown transport), store unchanged, no "
     "session created, valid polling handshake creates exactly one, 503 after Close; (2) id distinctness with SYMBOLIC random bytes and symbolic sequence numbers differing by any d in (0,2^24) through the real "
     "base64 encoder, invalid sizes refused, and an overlapping id neither overwrites nor removes the live session; (3) a valid handshake racing Server.Close under all interleavings at synchronisation points "
@@ -135,7 +135,7 @@ claimed["C06"] = (
     "termination causes concurrently - every pair of {transport close, client DISCONNECT, server namespace disconnect, server connection close, server shutdown} - under all interleavings at synchronisation points "
     "(preemption bound 1 quick / 2 thorough): its disconnect handler runs exactly once with the reason of a cause that occurred; afterwards the namespace's socket list, the connection's socket list and every room "
     "have forgotten it, it is disconnected, no mutex is left held; (2) the connection dies at any point while a CONNECT is being admitted through a (yielding) namespace middleware: afterwards the namespace lists no "
-    "socket of the dead connection and no room keeps its id; (4) Engine.IO level: a handshake whose application callback yields races Server.Close: every announced session gets OnClose exactly once and the session store is empty afterwards; (3) one termination cause races a Join from another goroutine or a SocketsJoin of an operator (preemption bound 2): afterwards the socket is in no room "
+    "socket of the dead connection and no room keeps its id; (5) the connection is cut while the backlog is flushed during the real upgradeTo (the new transport reports its close, with or without error, from inside the write of backlog packet 1 or 2): OnClose exactly once with transport close / transport error; (4) Engine.IO level: a handshake whose application callback yields races Server.Close: every announced session gets OnClose exactly once and the session store is empty afterwards; (3) one termination cause races a Join from another goroutine or a SocketsJoin of an operator (preemption bound 2): afterwards the socket is in no room "
     "and nothing lists it (found a genuine race of Join against the teardown, repaired: DESIGN.md 0.4). Counterexample schedules are replayed natively through instrumented copies of the package's files.",
     "Outside the claim: cutting the TCP stream at byte k, real ping timers, the Engine.IO-level close paths and session-id lookup (C17 covers 'closed sid => error 1'), upgrades in flight, connection state recovery on close.",
     "5 (C06)")
@@ -145,7 +145,7 @@ claimed["C02"] = (
     "connection's real send path (serverConn.sendBuffers -> packetQueue.add), one of them two packets in a row, while a consumer drains with the real poll: every frame is on the wire exactly once, the frames of a "
     "packet are contiguous and in frame order, packets of one goroutine keep their order; (b) handler-entry order: two EVENT packets (the first optionally binary with an attachment) arriving in one Engine.IO payload "
     "through the real serverConn.onEIOPacket -> onParserFinish -> serverSocket.onPacket -> handler, and the same on the client through Manager.onEIOPacket: the handlers are entered in packet order "
-    "(this was violated on the pinned commit - one goroutine per decoded packet - first recorded as a known finding, then repaired, DESIGN.md 0.4 F14); (b') a burst: five events in two payloads with yielding handlers, server and client, all interleavings: each once, in order; (c) after an upgrade: two two-frame events (one queued on the real "
+    "(this was violated on the pinned commit - one goroutine per decoded packet - first recorded as a known finding, then repaired, DESIGN.md 0.4 F14); (b') a burst: five events in two payloads with yielding handlers, server and client, all interleavings: each once, in order; (d) a batch taken from the long-polling queue (poll / get, 1..3 packets, handed over singly or in pairs) keeps exactly its packets while 1..3 more are sent, which come out next, each once, in order; (c) after an upgrade: two two-frame events (one queued on the real "
     "polling transport or both concurrent) around the real Engine.IO upgradeTo: every frame exactly once on the new transport, the frames of each event adjacent and in order.",
     "Outside the claim: more than 2 producers / longer bursts (argument: the critical section is one mutex-protected append), more than two events per payload, "
     "reordering between two physical transports on the client side of an upgrade, real transports.",
@@ -166,11 +166,12 @@ claimed["C16"] = (
     "under all interleavings at synchronisation points (preemption bound 2; server-socket group 1 quick / 2 thorough), and the executor's monitors must stay silent: happens-before data race on any heap cell, map or "
     "slice element (vector clocks; confirmed natively with `go test -race`), a goroutine left blocked with nobody to release it, a mutex left held, unlock of an unlocked mutex, an escaping panic. Groups: G1 handlerStore "
     "on/once/off/offAll/forEach/getAll with a handler that removes itself while dispatched; G2 eventHandlerStore on/once/off/offAll/getAll and off with a non-function argument (panics in reflect, recovered by the caller: mutex free, store usable); G3 packetQueue add/get/reset/close (+ a parked poller); G4 clientSocket (real constructor) Emit plain / with ack / volatile, OnEvent, OffEvent, an incoming event, an incoming ACK whose callback emits again, Disconnect; "
+    "G5 operations from a CLIENT acknowledgement callback delivered through the real reader path (Manager.onEIOPacket under the parser mutex): Disconnect / Manager.Close / Emit with ack / OnEvent / OffEvent: no deadlock, no mutex held, reader usable afterwards; "
     "G6 namespace-wide Emit / To(room).Emit / SocketsJoin / SocketsLeave / FetchSockets / DisconnectSockets / Sockets (quick: one operation, thorough: every pair) racing a client being admitted through a middleware that joins a room, on the "
     "admitted socket's namespace or another one; G8 Engine.IO server socket (real newServerSocket, ping loop running) Send / Close / onPong / TransportName / incoming CLOSE / upgradeTo / transport close; G7 serverSocket "
     "Join/Leave/registerAckHandler/onAck/onClose/Disconnect/Rooms on a connected socket of the server world; session-aware adapter: RestoreSession (unknown session / unknown offset / good offset) against Broadcast and "
     "PersistSession, three goroutines, then the adapter must still work.",
-    "Outside the claim: everything not in a listed group (adapters under re-entrant callbacks beyond C04_concurrent, the Engine.IO client socket, Manager Open/Close against the network), more than 2 goroutines, GOMAXPROCS effects, "
+    "Outside the claim: everything not in a listed group (adapters under re-entrant callbacks beyond C04_concurrent, the Engine.IO client socket, Manager Open against the network), more than 2 goroutines, GOMAXPROCS effects, "
     "the race detector's view of stdlib / third-party internals, unbounded programs. Code between two synchronisation operations is executed atomically, which is sound only if it is race-free - that proviso is what the race monitor checks.",
     "5 (C16)")
 
@@ -204,7 +205,7 @@ claimed["C01"] = (
     "in another namespace), 0..2 binary attachments of 0..2 SYMBOLIC bytes each (so the 0x1e record separator, 'b', digits are points of the solver's domain), framing mode, 1 (quick) / 1..2 (thorough) events. "
     "Asserts: the event reaches exactly the peer's handler(s) registered for that name in that namespace, exactly once, with byte-identical attachments in their places; an event without handler reaches nobody; "
     "no half-assembled packet stays in the decoder; the connection is not closed. C01_upgrade_server: two two-frame events (one queued on the real polling transport, or both concurrent) around the real "
-    "Engine.IO upgradeTo under all interleavings: every frame reaches the new transport exactly once and the frames of each event stay adjacent and in order. C01_concurrent_emitters: two goroutines emit a binary event each on one connection under all interleavings, the queue content then travels through the pipeline: both handlers once, each with its own attachment. C01_pipeline_recovery: the server -> client pipeline with connection state recovery ON (emit through the real session-aware adapter, client holding a session id): each event once, attachments byte-identical, also when the same values are emitted twice. The Socket.IO codec is a frame-preserving stand-in here: header/JSON are C09's subject, Engine.IO framing is C11's, the queue C02/C19's.",
+    "Engine.IO upgradeTo under all interleavings: every frame reaches the new transport exactly once and the frames of each event stay adjacent and in order. C01_batch: the client's long-polling batcher with symbolic packet sizes and maxPayload (kernel shared with C13_batch): every packet once, in order, no multi-packet body above the announced limit. C01_concurrent_emitters: two goroutines emit a binary event each on one connection under all interleavings, the queue content then travels through the pipeline: both handlers once, each with its own attachment. C01_pipeline_recovery: the server -> client pipeline with connection state recovery ON (emit through the real session-aware adapter, client holding a session id): each event once, attachments byte-identical, also when the same values are emitted twice. The Socket.IO codec is a frame-preserving stand-in here: header/JSON are C09's subject, Engine.IO framing is C11's, the queue C02/C19's.",
     "Outside the claim (structural for this family): argument trees through encoding/json and the reflect walk, sizes near 32 KiB / 64 KiB / MaxBufferSize and the transports' read limits (C13 decides the limit kernels it lists), "
     "real network transports, the client side of the upgrade (C07 kernel), more than two concurrent emitters, 2..3 clients.",
     "5 (C01)")
